@@ -28,6 +28,6 @@ package join
 
 // C09 / C13: a join presents its branches itself and never continues with a single cause
 //@ method (*joinError).SafeFormatError
-//@   props C09 C13
+//@   props C09 C13 C10
 //@   requires p != nil
 //@   ensures result == nil
